@@ -33,6 +33,7 @@ def parseROp (t : String) : Option ROp :=
   | "s16b" => d2.map (fun (a, b) => .s16 .big a b)
   | "vi" => some .vi
   | "vs" => some .vs
+  | "su2" => if arg.isNone then some .su2 else none
   | _ =>
     if head.startsWith "mv" then (parseInt? (head.drop 2).toString).map .mv
     else if head.startsWith "sw" then ((head.drop 2).toString.toNat?).map .sw
